@@ -95,8 +95,9 @@ class Ctx:
     return self.P.cls(fq)
 
   # ---- recording
-  def ob(self, rule, owner, node, ok, why, construct=None, chain=None, depends=(), definite=False):
-    """Record one rule instance.  owner: FuncInfo | ClassInfo | ModuleInfo."""
+  def ob(self, rule, owner, node, ok, why, construct=None, chain=None, depends=(), definite=False, unknown=None):
+    """Record one rule instance.  owner: FuncInfo | ClassInfo | ModuleInfo.
+    unknown: reason string when a failed instance only says that the analysis cannot classify the construct."""
     mod = owner.module if hasattr(owner, 'qualname') else owner
     fn = owner.qualname if hasattr(owner, 'qualname') else '<module>'
     if construct is None:
@@ -112,6 +113,8 @@ class Ctx:
       for dep in depends or ():       # other functions whose arrangement the rule reads
         if undec is None and dep is not None and hasattr(dep, 'qualname'):
           undec = self._restructured(dep, dep.module)
+    if not ok and unknown:
+      undec = unknown
     o = Obligation(rule, where, mod.rel, fn, construct, bool(ok), why, chain, undecided=undec)
     self.obligations.append(o)
     return o
